@@ -80,6 +80,7 @@ type Exec struct {
 	skipSafety bool
 	witness    map[string]SV
 	defers     []deferred
+	strIters   []*ssa.Range
 }
 
 type unsupportedErr struct{ msg string }
@@ -270,10 +271,10 @@ func fieldKey(st types.Type, i int) string {
 }
 
 func (ex *Exec) regKey(key, sort string) string {
-	if old, ok := heapKeySort[key]; ok && old != sort {
+	if old, ok := ex.q.so.keySort[key]; ok && old != sort {
 		panic(fmt.Sprintf("heap key %s sort clash %s vs %s", key, old, sort))
 	}
-	heapKeySort[key] = sort
+	ex.q.so.keySort[key] = sort
 	return key
 }
 
@@ -670,7 +671,16 @@ func (ex *Exec) instr(ins ssa.Instruction, b *ssa.BasicBlock, h *Heap, reach Ter
 		ex.closures[x] = x
 		ex.vals[x] = ex.P.closureRef(q, x)
 	case *ssa.Range:
-		ex.vals[x] = tInt(0) // iterator token; Next is nondeterministic
+		if _, isStr := x.X.Type().Underlying().(*types.Basic); isStr {
+			// string iteration: the iterator is a fresh cell holding the byte position
+			r := ex.alloc(h, "striter")
+			key := ex.regKey("IT:pos", arrSort(sInt, sInt))
+			q.heapSet(h, key, store(q.heapGet(h, key), r, tInt(0)))
+			ex.vals[x] = r
+			ex.strIters = append(ex.strIters, x)
+		} else {
+			ex.vals[x] = tInt(0) // map iterator token; Next is nondeterministic
+		}
 	case *ssa.Next:
 		tt := x.Type().(*types.Tuple)
 		ok := q.fresh("next_ok", sBool)
@@ -684,7 +694,19 @@ func (ex *Exec) instr(ins ssa.Instruction, b *ssa.BasicBlock, h *Heap, reach Ter
 		if x.IsString {
 			if r, isR := x.Iter.(*ssa.Range); isR {
 				s := ex.val(r.X)
-				q.assume(implies(ok, and(le(tInt(0), k), lt(k, strLen(s)))))
+				it := ex.val(r)
+				key := ex.regKey("IT:pos", arrSort(sInt, sInt))
+				pos := q.def("iterpos", sel(q.heapGet(h, key), it))
+				// exact UTF-8 iteration for ASCII; for a non-ASCII lead byte the rune is some value >= 0x80
+				// and the width is 1..4 (not modelled further)
+				b0 := strAt(s, pos)
+				width := q.fresh("runew", sInt)
+				q.assume(eq(ok, lt(pos, strLen(s))))
+				q.assume(eq(k, pos))
+				q.assume(implies(and(ok, lt(b0, tInt(128))), and(eq(v, b0), eq(width, tInt(1)))))
+				q.assume(implies(and(ok, le(tInt(128), b0)), and(le(tInt(128), v), le(tInt(1), width), le(width, tInt(4)))))
+				q.assume(and(le(tInt(0), pos), le(tInt(1), width)))
+				q.heapSet(h, key, store(q.heapGet(h, key), it, ite(ok, add(pos, width), pos)))
 			}
 		}
 		ex.tuples[x] = []Term{ok, k, v}
